@@ -155,6 +155,7 @@ pub fn worker_main(args: &[String]) {
                 let mut vios = 0usize;
                 let mut max_threads = 0usize;
                 let mut inconclusive = 0u64;
+                let mut sample: Option<(Vec<u8>, String, usize)> = None;
                 while let Some(prefix) = stack.pop() {
                     if track_cur {
                         writeln!(out, "CUR {}", hex(&prefix)).unwrap();
@@ -176,6 +177,12 @@ pub fn worker_main(args: &[String]) {
                         sites.insert((s.0.to_string(), s.1));
                     }
                     let sig = if o.outcome.is_empty() { "-".to_string() } else { o.outcome.join(";") };
+                    if o.failure.is_none() && o.violations.is_empty() {
+                        let pre = o.trace.iter().filter(|p| p.is_preemption()).count();
+                        if sample.as_ref().map(|s| pre > s.2).unwrap_or(true) {
+                            sample = Some((schedule_of(&o.trace), sig.clone(), pre));
+                        }
+                    }
                     *outcomes.entry(sig).or_default() += 1;
                     let failed_hard = o.failure.is_some();
                     if failed_hard {
@@ -240,6 +247,9 @@ pub fn worker_main(args: &[String]) {
                 for w in &witnesses {
                     writeln!(out, "WIT {}", w).unwrap();
                 }
+                if let Some((sch, sig, pre)) = &sample {
+                    writeln!(out, "SMP {} {} {}", pre, hex(sch), esc(sig)).unwrap();
+                }
                 for s in &sites {
                     writeln!(out, "SITE {}:{}", s.0, s.1).unwrap();
                 }
@@ -279,6 +289,8 @@ pub struct Stats {
     pub complete: bool,
     pub cap_hit: Option<String>,
     pub restarts: u32,
+    /// (preemptions, schedule, outcome) of a few explored passing executions
+    pub samples: Vec<(usize, String, String)>,
 }
 
 #[derive(Clone, Debug)]
@@ -459,6 +471,13 @@ fn explore_once(exe: &str, spec: &WorkerSpec, limits: &Limits) -> ExploreResult 
                             "WIT" => {
                                 local.witnesses.insert(rest.to_string());
                             }
+                            "SMP" => {
+                                let mut it = rest.splitn(3, ' ');
+                                let pre: usize = it.next().unwrap_or("0").parse().unwrap_or(0);
+                                let sch = it.next().unwrap_or("-").to_string();
+                                let sig = unesc(it.next().unwrap_or(""));
+                                local.samples.push((pre, sch, sig));
+                            }
                             "SITE" => {
                                 let (f, ln) = rest.rsplit_once(':').unwrap();
                                 lsites.push((f.to_string(), ln.parse::<u32>().unwrap()));
@@ -496,6 +515,15 @@ fn explore_once(exe: &str, spec: &WorkerSpec, limits: &Limits) -> ExploreResult 
                     }
                     for w in local.witnesses {
                         g.stats.witnesses.insert(w);
+                    }
+                    for smp in local.samples {
+                        if g.stats.samples.len() < 3 {
+                            g.stats.samples.push(smp);
+                        } else if let Some(min) = g.stats.samples.iter_mut().min_by_key(|x| x.0) {
+                            if smp.0 > min.0 {
+                                *min = smp;
+                            }
+                        }
                     }
                     for s in lsites {
                         g.new_sites.insert(s);
